@@ -9,6 +9,7 @@ from .. import pyfacts
 
 def run(tree, rep, tier):
     flow = Flow(tree)
+    flow.describe(rep)
     prog = flow.prog
     A1_inventory(rep, flow)
     entries = []
